@@ -165,8 +165,9 @@ theorem sim_fields (W : World) : ∀ (fields : List QField) (vid : Vid) (L : Lis
         (flatMapO (fun s => nodeO W e.toVid esC { c with active := s })
           (scopes e.optional v (W.D.nbrsOpt v e.name e.params))).bind (runO W esR) := by
       rw [runO_cons_single, hst, expandOne_eq_scopes, flatMapO_map]
-      have : ∀ cs, runO W (esC ++ esR) cs = (runO W esC cs).bind (runO W esR) := runO_append W esC esR
-      simp only [this]
+      have : runO W (esC ++ esR) = fun cs => (runO W esC cs).bind (runO W esR) :=
+        funext (runO_append W esC esR)
+      rw [this]
       rw [← Option.bind_assoc]
       congr 1
       have hl : ∀ cs, runO W esC cs = flatMapO (fun c' => runO W esC [c']) cs := runO_linear W esC
@@ -180,7 +181,7 @@ theorem sim_fields (W : World) : ∀ (fields : List QField) (vid : Vid) (L : Lis
       exact (hl cs).symm
     rw [hI, evalFields_edge_toOption, flatMapO_singleton,
       evalEdge_scopes W fuel n params kind child v (W.abs c) e hkind hparams hname]
-    refine SimO.bind (P := fun c' => Ext c c' vsC) ?_ ?_
+    refine SimO.bind (ab := W.abs) (P := fun c' => Ext c c' vsC) ?_ ?_
     · apply SimO.flatMapO
       intro s _
       exact sim_node W child e.toVid L esC vsC hC fuel hfC { c with active := s } hk hndC htnC
